@@ -19,8 +19,25 @@ func (m *Message) SkipClassAdRaw(ctx context.Context) error {
 		return fmt.Errorf("failed to read expression count: %w", err)
 	}
 	for i := 0; i < numExprs; i++ {
-		if err := m.SkipString(ctx); err != nil {
+		isMarker, err := m.skipExpr(ctx)
+		if err != nil {
 			return fmt.Errorf("failed to skip expression %d (expected %d): %w", i, numExprs, err)
+		}
+		if isMarker {
+			// SecretMarker + put_secret field: two wire items, one counted
+			// expression (see GetClassAdRawBody). Skip the secret with the
+			// sender's crypto-for-secret state so the framing stays in step.
+			sc, _ := m.stream.(secretCrypto)
+			if sc != nil {
+				sc.PrepareCryptoForSecret()
+			}
+			err = m.SkipString(ctx)
+			if sc != nil {
+				sc.RestoreCryptoAfterSecret()
+			}
+			if err != nil {
+				return fmt.Errorf("failed to skip secret expression %d (expected %d): %w", i, numExprs, err)
+			}
 		}
 	}
 	if err := m.SkipString(ctx); err != nil {
@@ -57,6 +74,45 @@ func (m *Message) SkipString(ctx context.Context) error {
 		if b == 0 {
 			return nil // null terminator
 		}
+	}
+}
+
+// skipExpr is SkipString for an expression slot: it additionally reports whether
+// the skipped string was exactly the SecretMarker, still without allocating.
+func (m *Message) skipExpr(ctx context.Context) (bool, error) {
+	if m.stream.IsEncrypted() {
+		length, err := m.GetInt32(ctx)
+		if err != nil {
+			return false, err
+		}
+		if int(length) != len(SecretMarker)+1 {
+			return false, m.discard(ctx, int(length))
+		}
+		b, err := m.GetBytes(ctx, int(length))
+		if err != nil {
+			return false, err
+		}
+		return string(b[:len(SecretMarker)]) == SecretMarker && b[len(SecretMarker)] == 0, nil
+	}
+	n, matched := 0, 0
+	for {
+		if err := m.ensureData(ctx, 1); err != nil {
+			if err == io.EOF {
+				return n == len(SecretMarker) && matched == n, nil
+			}
+			return false, err
+		}
+		b, err := m.buffer.ReadByte()
+		if err != nil {
+			return false, err
+		}
+		if b == 0 {
+			return n == len(SecretMarker) && matched == n, nil
+		}
+		if n < len(SecretMarker) && b == SecretMarker[n] {
+			matched++
+		}
+		n++
 	}
 }
 
